@@ -3,7 +3,6 @@ from __future__ import annotations
 
 import ast
 import itertools
-from collections import ChainMap
 
 from sa.astx import NotConst, call_name, const_eval, src, statements
 from sa.selftest import Mutant, Silent
@@ -75,6 +74,9 @@ class _WInterp(MiniInterp):
                     raise ModelError(f"TypeError: transport.write({type(v).__name__})")
                 self.sinks.append(bytes(v))
                 return None
+            if d == "self.protocol.dataReceived" and len(n.args) == 1:
+                self.sinks.append(self.ev(n.args[0]))
+                return None
             if d == "self.transport.writeSequence" and len(n.args) == 1:
                 self.sinks.append(b"".join(self.ev(n.args[0])))
                 return None
@@ -116,135 +118,88 @@ def ideal(data: bytes) -> bytes:
     return data.replace(IACB, IACB * 2).replace(LFB, CRB + LFB)
 
 
-# ---- receive automaton: extraction by whitelisted interpretation --------------------------------
-
-class _SelfToName(ast.NodeTransformer):
-    def visit_Attribute(self, node):
-        self.generic_visit(node)
-        if isinstance(node.value, ast.Name) and node.value.id == "self":
-            return ast.copy_location(ast.Name(id="self__" + node.attr, ctx=node.ctx), node)
-        return node
-
+# ---- receive automaton: evaluation by the whitelisted interpreter -----------------------------------
 
 class ModelRaise(Exception):
     pass
 
 
+class _RInterp(MiniInterp):
+    """One activation of a Telnet method inside the reader model: the three delivery call-outs are events, other
+    self.<private method>() calls of the class are interpreted in place (they share the instance attributes)."""
+
+    def __init__(self, func, reader):
+        MiniInterp.__init__(self, func, reader.attrs, {}, reader.consts)
+        self.reader = reader
+
+    def ev(self, n):
+        if isinstance(n, ast.Call) and not n.keywords:
+            if isinstance(n.func, ast.Name) and n.func.id == "iterbytes" and len(n.args) == 1 and "iterbytes" not in self.loc:
+                data = self.ev(n.args[0])
+                rd = self.reader
+
+                def gen():
+                    for c in data:
+                        b = bytes((c,))
+                        rd.trace.append((rd.attrs.get("state"), b))
+                        yield b
+                return gen()
+            if isinstance(n.func, ast.Attribute) and isinstance(n.func.value, ast.Name) and n.func.value.id == "self":
+                name = n.func.attr
+                args = [self.ev(a) for a in n.args]
+                if name in Reader.CALLBACKS:
+                    self.reader.passed |= {id(a) for a in args if isinstance(a, list)}
+                    self.reader.events.append((Reader.CALLBACKS[name],) + tuple(tuple(a) if isinstance(a, list) else a for a in args))
+                    return None
+                r = mro_lookup(self.reader.mod, self.reader.cls, name)
+                if r is not None and isinstance(r[1], ast.FunctionDef):
+                    self.reader.depth += 1
+                    if self.reader.depth > 30:
+                        raise AnalysisError("C38: helper recursion in the reader model")
+                    try:
+                        return _RInterp(r[1], self.reader).call(*args)
+                    finally:
+                        self.reader.depth -= 1
+                raise AnalysisError(f"C38: dataReceived calls self.{name}() which is not defined in {self.reader.cls.name}")
+        return MiniInterp.ev(self, n)
+
+
 class Reader:
-    """Evaluates the statements of Telnet.dataReceived over concrete bytes with sa.astx.const_eval for
-    every expression.  Only the statement shapes enumerated in _exec are understood; anything else is an
-    AnalysisError (never a verdict)."""
+    """Evaluates Telnet.dataReceived (and the private helpers it calls) over concrete chunks; instance attributes persist
+    between chunks, locals do not.  Unknown statement / expression forms are an AnalysisError (never a verdict)."""
 
-    CALLBACKS = {"self__applicationDataReceived": "app", "self__commandReceived": "cmd", "self__negotiate": "neg"}
+    CALLBACKS = {"applicationDataReceived": "app", "commandReceived": "cmd", "negotiate": "neg"}
 
-    def __init__(self, func, consts, initial_state):
-        # re-parse instead of deepcopy: the engine's nodes carry _parent links up to the module
-        self.func = _SelfToName().visit(ast.parse(ast.unparse(func)).body[0])
-        self.consts = dict(consts)
-        self.param = func.args.args[1].arg
-        self.local_names = {x.id for x in ast.walk(func) if isinstance(x, ast.Name) and isinstance(x.ctx, ast.Store)}
-        self.initial_state = initial_state
+    def __init__(self, mod, cls, func, consts, initial_state):
+        self.mod, self.cls, self.func, self.consts, self.initial_state = mod, cls, func, dict(consts), initial_state
         self.reset()
 
     @property
     def state(self):
-        return self.persist.get("self__state")
+        return self.attrs.get("state")
 
     def reset(self):
-        self.persist = {"self__state": self.initial_state}
+        self.attrs = {"state": self.initial_state}
         self.events = []
         self.trace = []      # (state before, byte) per consumed byte
         self.unflushed = b""
-
-    def _ev(self, node, env):
-        try:
-            return const_eval(node, env)
-        except NotConst as e:
-            if str(e).startswith("self__"):
-                raise ModelRaise(f"AttributeError: {str(e)[6:]}")     # attribute deleted / never set at this point
-            if str(e) in self.local_names:
-                raise ModelRaise(f"UnboundLocalError: {e}")          # a local that was bound in an earlier dataReceived() call only
-            raise AnalysisError(f"C38: expression of dataReceived not evaluable: {src(node)[:80]} ({e})")
-
-    def _set(self, env, name, value):
-        if name.startswith("self__"):
-            self.persist[name] = value
-        else:
-            self._loc[name] = value
+        self.depth = 0
+        self.passed = set()
 
     def feed(self, chunk: bytes):
-        self._loc = {self.param: chunk}
-        env = ChainMap(self._loc, self.persist, self.consts)
-        self._dirty = set()
-        self._block(self.func.body, env)
-        for k in sorted(self._dirty):
-            v = self._loc.get(k)
+        it = _RInterp(self.func, self)
+        n0 = len(self.events)
+        try:
+            it.call(chunk)
+        except ModelError as e:
+            raise ModelRaise(str(e))
+        # chunk-local byte buffers whose content was not handed to applicationDataReceived before the call returned
+        delivered = b"".join(e[1] for e in self.events[n0:] if e[0] == "app")
+        for k, v in it.loc.items():
             if isinstance(v, list) and v and all(isinstance(x, bytes) for x in v):
-                self.unflushed += b"".join(v)
-
-    def _block(self, stmts, env):
-        for st in stmts:
-            self._exec(st, env)
-
-    def _exec(self, st, env):
-        if isinstance(st, ast.Expr) and isinstance(st.value, ast.Constant):
-            return
-        if isinstance(st, ast.Pass):
-            return
-        if isinstance(st, ast.Assign) and len(st.targets) == 1 and isinstance(st.targets[0], ast.Name):
-            self._set(env, st.targets[0].id, self._ev(st.value, env))
-            return
-        if isinstance(st, ast.If):
-            self._block(st.body if self._ev(st.test, env) else st.orelse, env)
-            return
-        if isinstance(st, ast.For) and isinstance(st.target, ast.Name) and not st.orelse:
-            it = st.iter
-            if isinstance(it, ast.Call) and call_name(it) == "iterbytes" and len(it.args) == 1:
-                seq = [bytes((c,)) for c in self._ev(it.args[0], env)]
-            else:
-                raise AnalysisError(f"C38: loop of dataReceived not recognised: for .. in {src(it)}")
-            for b in seq:
-                self.trace.append((self.persist.get("self__state"), b))
-                self._loc[st.target.id] = b
-                self._block(st.body, env)
-            return
-        if isinstance(st, ast.Delete):
-            for t in st.targets:
-                if isinstance(t, ast.Name):
-                    (self.persist if t.id.startswith("self__") else self._loc).pop(t.id, None)
-                elif isinstance(t, ast.Subscript) and isinstance(t.value, ast.Name) and isinstance(t.slice, ast.Slice) \
-                        and t.slice.lower is None and t.slice.upper is None and isinstance(env.get(t.value.id), list):
-                    del env[t.value.id][:]
-                    self._dirty.discard(t.value.id)
-                else:
-                    raise AnalysisError(f"C38: del form not recognised: {src(st)}")
-            return
-        if isinstance(st, ast.Raise):
-            raise ModelRaise(src(st)[:60])
-        if isinstance(st, ast.Expr) and isinstance(st.value, ast.Call):
-            c = st.value
-            if isinstance(c.func, ast.Attribute) and isinstance(c.func.value, ast.Name) and isinstance(env.get(c.func.value.id), list) and not c.keywords:
-                lst = env[c.func.value.id]
-                args = [self._ev(a, env) for a in c.args]
-                if c.func.attr == "append" and len(args) == 1:
-                    lst.append(args[0])
-                    self._dirty.add(c.func.value.id)
-                    return
-                if c.func.attr == "extend" and len(args) == 1:
-                    lst.extend(args[0])
-                    self._dirty.add(c.func.value.id)
-                    return
-                if c.func.attr == "clear" and not args:
-                    del lst[:]
-                    self._dirty.discard(c.func.value.id)
-                    return
-            if isinstance(c.func, ast.Name) and c.func.id in self.CALLBACKS:
-                args = [self._ev(a, env) for a in c.args]
-                if self.CALLBACKS[c.func.id] == "app":
-                    self._dirty -= {n.id for a in c.args for n in ast.walk(a) if isinstance(n, ast.Name)}
-                self.events.append((self.CALLBACKS[c.func.id],) + tuple(tuple(a) if isinstance(a, list) else a for a in args))
-                return
-        raise AnalysisError(f"C38: statement of dataReceived not in the recognised subset: {src(st)[:90]}")
+                pending = b"".join(v)
+                if pending and not delivered.endswith(pending) and id(v) not in self.passed:
+                    self.unflushed += pending
 
 
 def reference(wire: bytes, C):
@@ -498,11 +453,32 @@ def check(ctx):
         _ok_rd = True
     with ctx.section('reader/states'):
         ctx.need(_ok_rd, 'anchors of reader (section skipped)')
+        # dataReceived and the private helpers only it (transitively) calls form the parser
+        allm = {}
+        for cls in (tel, tt):
+            for name, f in methods(cls).items():
+                allm.setdefault(name, []).append((cls, f))
+        callers = {}
+        for name, defs in allm.items():
+            for cls, f in defs:
+                for c in ast.walk(f):
+                    if isinstance(c, ast.Call) and isinstance(c.func, ast.Attribute) and isinstance(c.func.value, ast.Name) and c.func.value.id == "self":
+                        callers.setdefault(c.func.attr, set()).add(name)
+        parser = {"dataReceived"}
+        changed = True
+        while changed:
+            changed = False
+            for name in allm:
+                if name not in parser and name.startswith("_") and callers.get(name) and callers[name] <= parser:
+                    parser.add(name)
+                    changed = True
         handled = set()
-        for n in ast.walk(dr):
-            if isinstance(n, ast.Compare) and len(n.ops) == 1 and isinstance(n.ops[0], ast.Eq) and self_attr(n.left, "state") \
-                    and isinstance(n.comparators[0], ast.Constant):
-                handled.add(n.comparators[0].value)
+        for name in parser:
+            for cls, f in allm.get(name, []):
+                for n in ast.walk(f):
+                    if isinstance(n, ast.Compare) and len(n.ops) == 1 and isinstance(n.ops[0], (ast.Eq, ast.NotEq)) and self_attr(n.left, "state") \
+                            and isinstance(n.comparators[0], ast.Constant):
+                        handled.add(n.comparators[0].value)
         assigned = {}
         assigned[default.value] = "class default"
         n_sw = 0
@@ -511,8 +487,8 @@ def check(ctx):
                 for st in statements(f):
                     if isinstance(st, ast.Assign) and any(self_attr(t, "state") for t in st.targets):
                         n_sw += 1
-                        ctx.check(cls is tel and name == "dataReceived", "reader/who-writes-state", ctx.construct(f"{M}{cls.name}.{name}", st),
-                                  "the parse state is written outside dataReceived")
+                        ctx.check(cls is tel and name in parser, "reader/who-writes-state", ctx.construct(f"{M}{cls.name}.{name}", st),
+                                  "the parse state is written outside dataReceived (and the private helpers only it calls)")
                         if isinstance(st.value, ast.Constant):
                             assigned.setdefault(st.value.value, f"{cls.name}.{name}")
                         else:
@@ -531,15 +507,15 @@ def check(ctx):
         chain_ = [st for st in loop_.body if isinstance(st, ast.If)]
         ctx.need(chain_, "dataReceived: if self.state == ... chain")
         branches = []
-        node_ = chain_[0]
-        while True:
-            t_ = node_.test
-            label = t_.comparators[0].value if isinstance(t_, ast.Compare) and self_attr(t_.left, "state") and isinstance(t_.comparators[0], ast.Constant) else src(t_)[:30]
-            branches.append((label, node_.body))
-            if len(node_.orelse) == 1 and isinstance(node_.orelse[0], ast.If):
-                node_ = node_.orelse[0]
-            else:
-                break
+        for node_ in chain_:
+            while True:
+                t_ = node_.test
+                label = t_.comparators[0].value if isinstance(t_, ast.Compare) and self_attr(t_.left, "state") and isinstance(t_.comparators[0], ast.Constant) else src(t_)[:30]
+                branches.append((label, node_.body))
+                if len(node_.orelse) == 1 and isinstance(node_.orelse[0], ast.If):
+                    node_ = node_.orelse[0]
+                else:
+                    break
         n_reads = 0
         for label, body_ in branches:
             wrap = ast.Module(body=list(body_), type_ignores=[])
@@ -555,8 +531,8 @@ def check(ctx):
         ctx.floor("reader/state-on-instance", n_reads, 2, "reads of per-iteration locals")
     with ctx.section('reader/automaton'):
         ctx.need(_ok_rd, 'anchors of reader (section skipped)')
-        rd = Reader(dr, C, default.value)
-        rd2 = Reader(dr, C, default.value)
+        rd = Reader(mod, tel, dr, C, default.value)
+        rd2 = Reader(mod, tel, dr, C, default.value)
         n_runs = 0
         reported = set()
 
@@ -595,7 +571,7 @@ def check(ctx):
                 last = rd.trace[-1] if rd.trace else ("data", b"")
                 key = find_divergence(rd2, C, wire, chunks) or last
                 report("reader/round-trip", f"{qd} | state {key[0]!r} x {byte_name(key[1], C)}",
-                       f"{cls_}: wire {wire!r} ({sname}) is decoded as {got!r} / state {rd.persist.get('self__state')!r}"
+                       f"{cls_}: wire {wire!r} ({sname}) is decoded as {got!r} / state {rd.state!r}"
                        f"{' / raises ' + err if err else ''}; RFC 854 reference: {want_ev!r} / {want_state!r}")
         ctx.extra["automaton_runs"] = n_runs
         ctx.extra["wires"] = n_wires
@@ -606,26 +582,26 @@ def check(ctx):
         ctx.floor("reader/round-trip", n_wires, 900, "wires")
 
     with ctx.section('reader/delivery-unchanged'):
-        adr = ctx.func(TELNET, "TelnetTransport.applicationDataReceived")
-        dparam = adr.args.args[1].arg
-        fw = [c for c in ast.walk(adr) if isinstance(c, ast.Call) and call_name(c) == "self.protocol.dataReceived"]
-        ctx.check(len(fw) == 1 and len(fw[0].args) == 1 and isinstance(fw[0].args[0], ast.Name) and fw[0].args[0].id == dparam
-                  and not any(isinstance(st, (ast.Assign, ast.AugAssign)) for st in statements(adr)),
-                  "reader/delivery-unchanged", M + "TelnetTransport.applicationDataReceived",
-                  "decoded application bytes are not passed to protocol.dataReceived exactly once and unmodified")
+        ctx.func(TELNET, "TelnetTransport.applicationDataReceived")
+        badd = None
+        for d_ in (b"", b"a", IACB, NULB + b"x", CRB + LFB, b"a" * 3 + IACB * 2):
+            sinks = []
+            eval_method(mod, tt, tt, "applicationDataReceived", [d_], C, sinks, set())
+            if sinks != [d_] and badd is None:
+                badd = (d_, sinks)
+        ctx.check(badd is None, "reader/delivery-unchanged", M + "TelnetTransport.applicationDataReceived",
+                  f"decoded application bytes {badd[0] if badd else b''!r} reach protocol.dataReceived as {badd[1] if badd else []!r} (must be passed exactly once, unmodified)")
 
     with ctx.section('reader/unknown-state-raises'):
         ctx.need(_ok_rd, 'anchors of reader (section skipped)')
-        top = [st for st in dr.body if isinstance(st, ast.For)]
-        ctx.need(top, "dataReceived: for b in iterbytes(data)")
-        chain_if = [st for st in top[0].body if isinstance(st, ast.If)]
-        ctx.need(chain_if, "dataReceived: if self.state == ... chain")
-        node = chain_if[0]
-        while len(node.orelse) == 1 and isinstance(node.orelse[0], ast.If):
-            node = node.orelse[0]
-        ctx.check(any(isinstance(s, ast.Raise) for s in node.orelse), "reader/unknown-state-raises", qd + " | <else>",
+        rdx = Reader(mod, tel, dr, C, "no-such-state")
+        raised = False
+        try:
+            rdx.feed(b"a")
+        except ModelRaise:
+            raised = True
+        ctx.check(raised and not rdx.events, "reader/unknown-state-raises", qd + " | <unknown state>",
                   "an unknown parse state is silently ignored (bytes are dropped) instead of raising")
-
 
 def reference_step(st, b, C):
     simple = {C[k] for k in ("EOR", "NOP", "DM", "BRK", "IP", "AO", "AYT", "EC", "EL", "GA")}
@@ -730,6 +706,13 @@ MUTANTS = [
            "            elif self.state == \"command\":\n                command = self.command\n", expect_rule="reader/round-trip"),
 ]
 SILENT = [
+    Silent("flush-moved-into-private-helper", T, "                command = self.command\n                del self.command\n                if appDataBuffer:\n                    self.applicationDataReceived(b\"\".join(appDataBuffer))\n                    del appDataBuffer[:]\n                self.commandReceived(command, b)\n",
+           "                command = self.command\n                del self.command\n                self._handOver(appDataBuffer)\n                self.commandReceived(command, b)\n",
+           more=[(T, "    def connectionLost(self, reason):\n        for state in self.options.values():", "    def _handOver(self, pending):\n        if not pending:\n            return\n        text = b\"\".join(pending)\n        self.applicationDataReceived(text)\n        pending.clear()\n\n    def connectionLost(self, reason):\n        for state in self.options.values():")]),
+    Silent("data-state-as-guard-clauses", T, "                if b == IAC:\n                    self.state = \"escaped\"\n                elif b == b\"\\r\":\n                    self.state = \"newline\"\n                else:\n                    appDataBuffer.append(b)\n",
+           "                if b == IAC:\n                    self.state = \"escaped\"\n                    continue\n                if b == CR:\n                    self.state = \"newline\"\n                    continue\n                appDataBuffer.append(b)\n                continue\n"),
+    Silent("final-flush-early-return-and-temporary", T, "                raise ValueError(\"How'd you do this?\")\n\n        if appDataBuffer:\n            self.applicationDataReceived(b\"\".join(appDataBuffer))\n",
+           "                raise ValueError(\"How'd you do this?\")\n\n        if not appDataBuffer:\n            return\n        rest = b\"\".join(appDataBuffer)\n        self.applicationDataReceived(rest)\n"),
     Silent("writeSequence-materialise-then-fast-path", T, "    def writeSequence(self, seq):\n        self.write(b\"\".join(seq))\n\n\nclass TelnetBootstrapProtocol",
            "    def writeSequence(self, seq):\n        seq = list(seq)\n        if any(IAC in piece or b\"\\n\" in piece for piece in seq):\n            self.write(b\"\".join(seq))\n        else:\n            self.transport.writeSequence(seq)\n\n\nclass TelnetBootstrapProtocol"),
     Silent("iac-escape-only-when-present", T, "        ProtocolTransportMixin.write(self, data.replace(b\"\\xff\", b\"\\xff\\xff\"))",
